@@ -12,16 +12,20 @@ open Pyoda Pyoda.Calendar
 /-- Decidable-in-principle, bounded facts about one calendar from which the whole property follows. -/
 structure WF (c : Calc) : Prop where
   dom_lo : c.domLo ≤ c.minYear
+  /-- the year search may go below `minYear` only as far as `searchLo`, where lookups are still defined -/
+  search_lo : c.domLo ≤ c.searchLo ∧ c.searchLo ≤ c.minYear
   dom_hi : c.maxYear + 1 ≤ c.domHi
   year_order : c.minYear ≤ c.maxYear
   /-- year-start recurrence and positivity of year lengths -/
   recur : ∀ y, c.minYear ≤ y → y ≤ c.maxYear → c.start (y + 1) = c.start y + c.len y ∧ 0 < c.len y
+  /-- the same for the sentinel years `searchLo … minYear - 1` (none for most calendars) -/
+  recur_lo : ∀ y, c.searchLo ≤ y → y < c.minYear → c.start (y + 1) = c.start y + c.len y ∧ 0 < c.len y
   avg_ok : 0 < c.avg10 + 1 ∧ c.avg10 + 1 < 1000000000
   small : -1000000000 < c.start c.minYear ∧ c.start (c.maxYear + 1) < 1000000000 ∧
           -1000000000 < c.daysAtYear1 ∧ c.daysAtYear1 < 1000000000
   /-- the estimate stays where year starts are defined and within 60 years of the true year -/
   est : ∀ y d, c.minYear ≤ y → y ≤ c.maxYear → c.start y ≤ d → d < c.start (y + 1) →
-        c.minYear ≤ Int.tdiv ((d - c.daysAtYear1) * 10) (c.avg10 + 1) + 1 ∧
+        c.searchLo ≤ Int.tdiv ((d - c.daysAtYear1) * 10) (c.avg10 + 1) + 1 ∧
         Int.tdiv ((d - c.daysAtYear1) * 10) (c.avg10 + 1) + 1 ≤ c.maxYear + 1 ∧
         Int.tdiv ((d - c.daysAtYear1) * 10) (c.avg10 + 1) + 1 ≤ y + 60 ∧
         y ≤ Int.tdiv ((d - c.daysAtYear1) * 10) (c.avg10 + 1) + 1 + 60
@@ -41,25 +45,42 @@ structure WF (c : Calc) : Prop where
         c.monthKey y m1 < c.monthKey y m2 → c.toMonth y m1 + c.dim y m1 ≤ c.toMonth y m2
   month_key_inj : ∀ y m1 m2, c.minYear ≤ y → y ≤ c.maxYear → 1 ≤ m1 → m1 ≤ c.months y → 1 ≤ m2 → m2 ≤ c.months y →
         c.monthKey y m1 = c.monthKey y m2 → m1 = m2
-  plain_key : c.ownCompare = false → ∀ y m, c.monthKey y m = m
+  plain_key : c.ownCompare = false → ∀ y m, c.minYear ≤ y → y ≤ c.maxYear → 1 ≤ m → m ≤ c.months y → c.monthKey y m = m
 
 variable {c : Calc}
 
-theorem yearOk_ok (h : WF c) {y : Int} (h1 : c.minYear ≤ y) (h2 : y ≤ c.maxYear + 1) : c.yearOk y = .ok () := by
+theorem recurAll (h : WF c) (y : Int) (h1 : c.searchLo ≤ y) (h2 : y ≤ c.maxYear) :
+    c.start (y + 1) = c.start y + c.len y ∧ 0 < c.len y := by
+  by_cases hy : c.minYear ≤ y
+  · exact h.recur y hy h2
+  · exact h.recur_lo y h1 (by omega)
+
+theorem yearOk_ok' (h : WF c) {y : Int} (h1 : c.searchLo ≤ y) (h2 : y ≤ c.maxYear + 1) : c.yearOk y = .ok () := by
   unfold Calc.yearOk
-  have := h.dom_lo; have := h.dom_hi
+  have := h.search_lo; have := h.dom_hi
   rw [if_neg (by omega)]
 
-theorem startR_ok (h : WF c) {y : Int} (h1 : c.minYear ≤ y) (h2 : y ≤ c.maxYear + 1) :
+theorem yearOk_ok (h : WF c) {y : Int} (h1 : c.minYear ≤ y) (h2 : y ≤ c.maxYear + 1) : c.yearOk y = .ok () :=
+  yearOk_ok' h (by have := h.search_lo; omega) h2
+
+theorem startR_ok' (h : WF c) {y : Int} (h1 : c.searchLo ≤ y) (h2 : y ≤ c.maxYear + 1) :
     c.startR y = .ok (c.start y) := by
-  unfold Calc.startR; rw [yearOk_ok h h1 h2]; rfl
+  unfold Calc.startR; rw [yearOk_ok' h h1 h2]; rfl
+
+theorem startR_ok (h : WF c) {y : Int} (h1 : c.minYear ≤ y) (h2 : y ≤ c.maxYear + 1) :
+    c.startR y = .ok (c.start y) :=
+  startR_ok' h (by have := h.search_lo; omega) h2
+
+theorem lenR_ok' (h : WF c) {y : Int} (h1 : c.searchLo ≤ y) (h2 : y ≤ c.maxYear + 1) :
+    c.lenR y = .ok (c.len y) := by
+  unfold Calc.lenR; rw [yearOk_ok' h h1 h2]; rfl
 
 theorem lenR_ok (h : WF c) {y : Int} (h1 : c.minYear ≤ y) (h2 : y ≤ c.maxYear + 1) :
-    c.lenR y = .ok (c.len y) := by
-  unfold Calc.lenR; rw [yearOk_ok h h1 h2]; rfl
+    c.lenR y = .ok (c.len y) :=
+  lenR_ok' h (by have := h.search_lo; omega) h2
 
-/-- year starts are monotone on `[minYear, maxYear + 1]` -/
-theorem start_mono_nat (h : WF c) (y : Int) (hy : c.minYear ≤ y) :
+/-- year starts are monotone on `[searchLo, maxYear + 1]` -/
+theorem start_mono_nat (h : WF c) (y : Int) (hy : c.searchLo ≤ y) :
     ∀ n : Nat, y + n ≤ c.maxYear + 1 → c.start y ≤ c.start (y + n) := by
   intro n
   induction n with
@@ -67,15 +88,19 @@ theorem start_mono_nat (h : WF c) (y : Int) (hy : c.minYear ≤ y) :
   | succ n ih =>
     intro hb
     have h1 := ih (by omega)
-    have h2 := h.recur (y + n) (by omega) (by omega)
+    have h2 := recurAll h (y + n) (by omega) (by omega)
     have e : y + ((n + 1 : Nat) : Int) = y + n + 1 := by omega
     rw [e]; omega
 
-theorem start_mono (h : WF c) {y z : Int} (hy : c.minYear ≤ y) (hyz : y ≤ z) (hz : z ≤ c.maxYear + 1) :
+theorem start_mono' (h : WF c) {y z : Int} (hy : c.searchLo ≤ y) (hyz : y ≤ z) (hz : z ≤ c.maxYear + 1) :
     c.start y ≤ c.start z := by
   have := start_mono_nat h y hy (z - y).toNat (by omega)
   have e : y + ((z - y).toNat : Int) = z := by omega
   rw [e] at this; exact this
+
+theorem start_mono (h : WF c) {y z : Int} (hy : c.minYear ≤ y) (hyz : y ≤ z) (hz : z ≤ c.maxYear + 1) :
+    c.start y ≤ c.start z :=
+  start_mono' h (by have := h.search_lo; omega) hyz hz
 
 theorem start_strict (h : WF c) {y z : Int} (hy : c.minYear ≤ y) (hyz : y < z) (hz : z ≤ c.maxYear + 1) :
     c.start y < c.start z := by
@@ -142,10 +167,10 @@ theorem back_spec (h : WF c) (d y : Int) (hy : c.minYear ≤ y) (hy2 : y ≤ c.m
       · have := start_mono h (y := y + 1) (z := cand) (by omega) (by omega) hch
         omega
 
-/-- forward correction loop -/
+/-- forward correction loop (may start at a sentinel year below `minYear`) -/
 theorem fwd_spec (h : WF c) (d y : Int) (hy : c.minYear ≤ y) (hy2 : y ≤ c.maxYear)
     (hs : c.start y ≤ d) (he : d < c.start (y + 1)) :
-    ∀ (f : Nat) (cand : Int), c.minYear ≤ cand → cand ≤ y → (y - cand).toNat < f →
+    ∀ (f : Nat) (cand : Int), c.searchLo ≤ cand → cand ≤ y → (y - cand).toNat < f →
       fwdLoop c f cand (d - c.start cand) = .ok (y, d - c.start y) := by
   intro f
   induction f with
@@ -153,8 +178,8 @@ theorem fwd_spec (h : WF c) (d y : Int) (hy : c.minYear ≤ y) (hy2 : y ≤ c.ma
   | succ f ih =>
     intro cand hlo hcy hf
     unfold fwdLoop
-    rw [lenR_ok h hlo (by omega)]
-    have hw := h.recur cand hlo (by omega)
+    rw [lenR_ok' h hlo (by omega)]
+    have hw := recurAll h cand hlo (by omega)
     show (if d - c.start cand ≥ c.len cand then fwdLoop c f (cand + 1) (d - c.start cand - c.len cand)
           else Except.ok (cand, d - c.start cand)) = _
     by_cases hge : d - c.start cand ≥ c.len cand
@@ -169,7 +194,7 @@ theorem fwd_spec (h : WF c) (d y : Int) (hy : c.minYear ≤ y) (hy2 : y ≤ c.ma
     · rw [if_neg hge]
       by_cases hq : y = cand
       · subst hq; rfl
-      · have := start_mono h (y := cand + 1) (z := y) (by omega) (by omega) (by omega)
+      · have := start_mono' h (y := cand + 1) (z := y) (by omega) (by omega) (by omega)
         omega
 
 theorem estimate_ok (h : WF c) (d y : Int) (hy : c.minYear ≤ y) (hy2 : y ≤ c.maxYear)
@@ -192,13 +217,13 @@ theorem getYear_spec (h : WF c) (d y : Int) (hy : c.minYear ≤ y) (hy2 : y ≤ 
   obtain ⟨e1, e2, e3, e4⟩ := h.est y d hy hy2 hs he
   generalize Int.tdiv ((d - c.daysAtYear1) * 10) (c.avg10 + 1) + 1 = e at *
   show (do let s ← c.startR e; (if d - s < 0 then backLoop c yearFuel e (d - s) else fwdLoop c yearFuel e (d - s))) = _
-  rw [startR_ok h e1 e2]
+  rw [startR_ok' h e1 e2]
   show (if d - c.start e < 0 then backLoop c yearFuel e (d - c.start e) else fwdLoop c yearFuel e (d - c.start e)) = _
   by_cases hneg : d - c.start e < 0
   · rw [if_pos hneg]
     have hye : y ≤ e := by
       by_cases hq : e < y
-      · have := start_mono h (y := e) (z := y) e1 (by omega) (by omega); omega
+      · have := start_mono' h (y := e) (z := y) e1 (by omega) (by omega); omega
       · omega
     exact back_spec h d y hy hy2 hs he yearFuel e hye e2 (by unfold yearFuel; omega)
   · rw [if_neg hneg]
